@@ -38,7 +38,11 @@ def plan(tier, seed):
     n = 12 if tier == 'quick' else 60
     return ([{'seed': seed, 'idx': i, 'gens': 6 if tier == 'quick' else 10} for i in range(n)] +
             # a unix socket file left behind by an earlier daemon (no `replace`): start-up is refused, or the socket works
-            [{'seed': seed, 'idx': 1000 + i, 'gens': 2, 'stale_unix': True} for i in range(1 if tier == 'quick' else 4)])
+            [{'seed': seed, 'idx': 1000 + i, 'gens': 2, 'stale_unix': True} for i in range(1 if tier == 'quick' else 4)] +
+            # `statsd = True`: the daemon's own circusd-stats worker inherits every managed socket; it is restarted, killed
+            # and stopped between the generations, and the sockets must stay the daemon's listening ones throughout
+            [{'seed': seed, 'idx': 2000 + i, 'gens': 4 if tier == 'quick' else 8, 'statsd': True}
+             for i in range(2 if tier == 'quick' else 8)])
 
 
 def build(rnd):
@@ -71,7 +75,7 @@ def fname(sockname):
 
 
 def ini_for(d, conf):
-    txt = d.header(check_delay=0.3)
+    txt = d.header(check_delay=0.3, extra='statsd = True\nstats_endpoint = ipc://@DIR@/stats\n' if conf.get('statsd') else '')
     for s in conf['sockets']:
         if s['kind'] == 'unix':
             txt += '[socket:%s]\npath = @DIR@/%s.sock\n\n' % (s['name'], fname(s['name']))
@@ -106,7 +110,12 @@ def run_case(spec):
     res = CaseResult()
     rnd = rng_for(spec['seed'], 'C07', spec['idx'])
     conf = spec.get('conf') or build(rnd)
-    actions = spec.get('actions') or [rnd.choice(ACTIONS) for _ in range(spec['gens'])]
+    if spec.get('statsd'):
+        conf['statsd'] = True
+    actions = spec.get('actions') or [rnd.choice(ACTIONS + ['stats-restart', 'stats-term', 'stats-stopstart'] * 4
+                                                 if conf.get('statsd') else ACTIONS) for _ in range(spec['gens'])]
+    if conf.get('statsd') and not spec.get('actions') and not any(a.startswith('stats-') for a in actions):
+        actions[0] = 'stats-restart'
     d = live.Daemon('', strace=True)
     d.ini = ini_for(d, conf).replace('@DIR@', d.dir).replace('@LOG@', d.logdir)
     with open(d.ini_path, 'w', encoding='utf8') as f:
@@ -290,6 +299,27 @@ def _case(d, conf, actions, rnd, res):
                 except OSError:
                     pass
             time.sleep(0.8)
+        elif act.startswith('stats-'):
+            # the circusd-stats worker (a use_sockets watcher of the daemon's own making) goes away and comes back; then
+            # the chosen watcher gets a new generation, which must find the same listening sockets
+            before = d.call('list', name='circusd-stats').get('pids', [])
+            if act == 'stats-restart':
+                d.call('restart', name='circusd-stats', waiting=True, timeout=20)
+            elif act == 'stats-stopstart':
+                d.call('stop', name='circusd-stats', waiting=True, timeout=20)
+                d.call('start', name='circusd-stats', waiting=True, timeout=20)
+            else:
+                for p in before:
+                    try:
+                        os.kill(p, 15)
+                    except OSError:
+                        pass
+                time.sleep(1.0)
+            after = d.call('list', name='circusd-stats').get('pids', [])
+            res.obs['stats_worker_replaced'] += int(bool(before) and bool(after) and set(before) != set(after))
+            time.sleep(0.3)
+            inspect('generation %d: after %s' % (g, act))
+            d.call('restart', name=wn, waiting=True, timeout=15)
         elif act == 'restart':
             d.call('restart', name=wn, waiting=True, timeout=15)
         elif act == 'reload':
@@ -386,4 +416,6 @@ def starved(merged, tier):
         out.append('only %d worker descriptors checked' % o.get('descriptor_checks', 0))
     if o.get('bind_calls_seen', 0) < 3:
         out.append('strace bind() record not seen (%d)' % o.get('bind_calls_seen', 0))
+    if o.get('stats_worker_replaced', 0) < 1:
+        out.append('the circusd-stats worker was never seen replaced')
     return out
